@@ -428,6 +428,19 @@ func (env *SpecEnv) localName(name string) (SVal, bool) {
 	// phis at the program point first (loop variables), then the most recent
 	// binding of the identifier according to the debug information (handles
 	// shadowing), then parameters / captured variables / named allocs.
+	if name == "rangevisited" && env.at != nil {
+		// keys a `for k, v := range m` loop has produced so far (ghost set)
+		for _, ins := range env.at.Instrs {
+			if n, ok := ins.(*ssa.Next); ok {
+				if rng, ok := n.Iter.(*ssa.Range); ok {
+					if mt, ok := rng.X.Type().Underlying().(*types.Map); ok {
+						h, ks := fr.visitedHeap(rng, mt)
+						return SVal{T: Term{ft.heapTerm(env.state(), h), arraySort(ks, SBool)}}, true
+					}
+				}
+			}
+		}
+	}
 	if name == "rangeslice" && env.at != nil {
 		// the slice a `for ... range X` loop iterates over (X need not have a name):
 		// the header compares rangeindex+1 with len(X)
@@ -980,6 +993,23 @@ func (env *SpecEnv) call(x ECall) (SVal, error) {
 		return SVal{T: Term{eq(args[0].T.S, "null"), SBool}}, nil
 	case "dyntype":
 		return SVal{T: Term{sx("dyntype", args[0].T.S), SInt}}, nil
+	case "mapvals", "mapdom":
+		// the value / key-set array of a Go map as a ghost total map
+		if err := need(1); err != nil {
+			return SVal{}, err
+		}
+		if args[0].Typ == nil {
+			return SVal{}, fmt.Errorf("%s() needs a map", x.Fn)
+		}
+		mt, ok := args[0].Typ.Underlying().(*types.Map)
+		if !ok {
+			return SVal{}, fmt.Errorf("%s() needs a map", x.Fn)
+		}
+		dom, val, ks, vs := u.mapHeaps(mt)
+		if x.Fn == "mapvals" {
+			return SVal{T: Term{sel(env.ft.heapTerm(env.state(), val), args[0].T.S), arraySort(ks, vs)}}, nil
+		}
+		return SVal{T: Term{sel(env.ft.heapTerm(env.state(), dom), args[0].T.S), arraySort(ks, SBool)}}, nil
 	case "sameArray":
 		// sameArray(s, t): both slices are views of one backing array
 		if err := need(2); err != nil {
